@@ -468,6 +468,46 @@ def _show(f, lin):
     return " ".join(out) or "0"
 
 
+def check_eof(P, R):
+    """RF-eof: every caller reads a negative result of prchunk_fill as the end of the input and stops without a word; so the reader
+    may answer -1 only where the input has ended (nothing more could be read) or the caller broke the protocol"""
+    rule = "RF-eof"
+    tu = P.tu("prchunk.c")
+    fn = tu.func("prchunk_fill")
+    if fn is None:
+        raise AnalysisBroken("prchunk_fill vanished")
+    R.saw(fn)
+    nrd = None
+    for x in fn.walk():
+        if x.get("k") == "BinaryOperator" and x.get("op") == "=":
+            r = strip(x["c"][1])
+            if r is not None and r.get("k") == "CallExpr" and r.get("callee") == "read":
+                nrd = strip(x["c"][0]).get("n")
+    if nrd is None:
+        raise AnalysisBroken("%s: the read() of prchunk_fill was not found" % rule)
+    rets = [r for r in fn.walk() if r.get("k") == "ReturnStmt" and kids(r) and const_of(kids(r)[0]) is not None and const_of(kids(r)[0]) < 0]
+    if not rets:
+        raise AnalysisBroken("%s: prchunk_fill has no negative return any more" % rule)
+    n = 0
+    for r in rets:
+        n += 1
+        gs = [g for g in guards_of(fn, r) if "pol" in g]
+        texts = [(expr_text(strip(g["cond"])), g["pol"]) for g in gs]
+        ended = any(pol and re.search(r"\b%s\b\s*<=\s*0|!\s*%s\b" % (nrd, nrd), t) for t, pol in texts)
+        misuse = bool(texts) and all(not pol and "bno" in t for t, pol in texts) and any("off" in t for t, pol in texts)
+        if ended:
+            R.ob(rule, "prchunk_fill line %s: -1 where nothing more could be read (`%s`)" % (r.get("l"), nrd), True)
+        elif misuse:
+            R.ob(rule, "prchunk_fill line %s: -1 where the caller has not consumed the window it was given (protocol breach, no input lost "
+                 "by the reader)" % r.get("l"), True)
+        else:
+            names = sorted(set(re.findall(r"ctx->(\w+)", " ".join(t for t, _ in texts))))
+            R.finding(rule, fn, "return -1 under tests of %s only" % ", ".join("ctx->" + x for x in names),
+                      "the reader answers -1, which every caller takes for the end of the input, on a path where the input has not "
+                      "ended: whatever follows in the input is dropped without a message and the tool exits 0", r)
+    R.floor(rule, "negative returns of prchunk_fill", n, 2)
+
+
 def check_rewind(P, R):
     """RF-rewind: a fill starts a new window (the line count is zeroed on entry); the reader's position in the window must be zeroed
     on every path that hands the window out (returns 0), or the first lines of the new window are skipped"""
@@ -565,6 +605,7 @@ def check(P, R, tier):
     import c10
     c10.check_finder_start(P, R, "RF4-start")
     check_rewind(P, R)
+    check_eof(P, R)
     check_terminated(P, R)
     check_window(P, R)
     check_pairing(P, R)
